@@ -238,6 +238,14 @@ func registerStd(e *Engine) {
 				err = o.F[1].(IfaceV)
 				continue
 			}
+			// unwrap *fs.PathError{Op, Path, Err}
+			if strings.HasSuffix(err.T.String(), "fs.PathError") {
+				if p, ok := err.V.(Ptr); ok && !p.IsNil() {
+					o := e.objCell(st, p).(StructV)
+					err = o.F[2].(IfaceV)
+					continue
+				}
+			}
 			return c.False(), true
 		}
 		return c.False(), true
